@@ -127,7 +127,7 @@ def check_property(pid, tier, seed, write_evidence=True):
                 units.append(u)
     budgets = dict(BUDGETS)
     if tier == "thorough":
-        os.environ.setdefault("VERIF_CROSS_SAMPLE", "12")
+        os.environ.setdefault("VERIF_CROSS_SAMPLE", "3")
         import pyvc.runner as _rn
 
         _rn.CROSS_SAMPLE = int(os.environ["VERIF_CROSS_SAMPLE"])
